@@ -39,6 +39,7 @@ package keeper
 //@   panics never
 
 //@ func (k Keeper) SetBaseFee(ctx sdk.Context, baseFee sdkmath.Int)
+//@   deterministic[C01.no_node_local_source]
 //@   requires fmMinGasPrice[layer(ctx)] >= 0
 //@   modifies fmBaseFee[layer(ctx)], fmBaseFeeNil[layer(ctx)], fmMinGasPrice[layer(ctx)]
 //@   ensures[C09.stored] fmBaseFee[layer(ctx)] == iv(baseFee) && !fmBaseFeeNil[layer(ctx)] && fmMinGasPrice[layer(ctx)] == old(fmMinGasPrice[layer(ctx)])
@@ -46,6 +47,7 @@ package keeper
 
 // C09: next base fee = max(EIP-1559(b, used, limit), trunc(minGasPrice)); never negative; never fails.
 //@ func (k Keeper) CalculateBaseFee(ctx sdk.Context) sdkmath.Int
+//@   deterministic[C01.no_node_local_source]
 //@   requires !fmBaseFeeNil[layer(ctx)] && fmBaseFee[layer(ctx)] >= 0 && fmBaseFee[layer(ctx)] < pow2(256) && fmMinGasPrice[layer(ctx)] >= 0
 //@   requires ctx.BlockGasMeter() != nil && k.evmKeeper != nil
 //@   requires (ctx.ConsensusParams().Block != nil ==> ctx.ConsensusParams().Block.MaxGas >= -1) && k.evmKeeper != nil && fmMinGasPrice[layer(ctx)] < pow2(315) && londonActive(k.evmKeeper.GetChainConfig(ctx), ctx.BlockHeight())
@@ -55,6 +57,7 @@ package keeper
 //@   panics[C09.never_fails,C20.never_fails] never
 
 //@ func (k Keeper) updateBaseFeeForNextBlock(ctx sdk.Context)
+//@   deterministic[C01.no_node_local_source]
 //@   requires !fmBaseFeeNil[layer(ctx)] && fmBaseFee[layer(ctx)] >= 0 && fmBaseFee[layer(ctx)] < pow2(256) && fmMinGasPrice[layer(ctx)] >= 0
 //@   requires (ctx.ConsensusParams().Block != nil ==> ctx.ConsensusParams().Block.MaxGas >= -1) && k.evmKeeper != nil && fmMinGasPrice[layer(ctx)] < pow2(315) && londonActive(k.evmKeeper.GetChainConfig(ctx), ctx.BlockHeight())
 //@   modifies fmBaseFee[layer(ctx)], fmBaseFeeNil[layer(ctx)], fmMinGasPrice[layer(ctx)], evlog[payload(ctx.EventManager())]
@@ -63,6 +66,7 @@ package keeper
 //@   panics[C09.end_block_never_fails,C20.end_block_never_fails] never
 
 //@ func (k Keeper) EndBlock(ctx sdk.Context)
+//@   deterministic[C01.no_node_local_source]
 //@   requires !fmBaseFeeNil[layer(ctx)] && fmBaseFee[layer(ctx)] >= 0 && fmBaseFee[layer(ctx)] < pow2(256) && fmMinGasPrice[layer(ctx)] >= 0
 //@   requires (ctx.ConsensusParams().Block != nil ==> ctx.ConsensusParams().Block.MaxGas >= -1) && k.evmKeeper != nil && fmMinGasPrice[layer(ctx)] < pow2(315) && londonActive(k.evmKeeper.GetChainConfig(ctx), ctx.BlockHeight())
 //@   modifies fmBaseFee[layer(ctx)], fmBaseFeeNil[layer(ctx)], fmMinGasPrice[layer(ctx)], evlog[payload(ctx.EventManager())]
